@@ -59,15 +59,27 @@ def circuits(rng):
     c = lw.Circuit(3)
     c.mode_swaps({0: 1, 1: 2, 2: 0})
     fam["swap"] = c
+    # same mode count and number of heralds, but the output herald sits on different modes
+    for tag, (hi, ho) in {"herald_out0": (3, 0), "herald_out2": (3, 2), "herald_in0": (0, 3)}.items():
+        c = lw.Circuit(4)
+        c.bs(0, 1, reflectivity=0.4)
+        c.bs(1, 2, reflectivity=0.7)
+        c.bs(2, 3, reflectivity=0.45)
+        c.bs(0, 3, reflectivity=0.6)
+        c.herald(1, hi, ho)
+        fam[tag] = c
     return fam, p
 
 
 SAME_UFULL = [("idleherald0", "idleherald1"), ("idleherald1", "idleherald0")]
+MOVED_HERALD = [("herald_out0", "herald_out2"), ("herald_out2", "herald_out0"), ("herald_out0", "herald_in0"),
+                ("herald_in0", "herald_out2")]
 
 
 def gen_history(ctx: Ctx, rng, kind: str) -> list:
     steps = []
-    names = ["idleherald0", "idleherald1", "plain", "lossy", "heralded_sub", "swap"]
+    names = ["idleherald0", "idleherald1", "plain", "lossy", "heralded_sub", "swap", "herald_out0", "herald_out2",
+             "herald_in0"]
     inputs = [[1, 0, 0], [1, 1, 0], [0, 1, 1], [2, 0, 0], [0, 0, 0], [1, 1, 1], [1, 0, 1]]
     if rng.random() < 0.35:
         # directed: two circuits with element-wise equal U_full but different herald photons, with an
@@ -76,6 +88,18 @@ def gen_history(ctx: Ctx, rng, kind: str) -> list:
         obs = rng.choice([["read"], ["sample", rng.randrange(1000)], ["sample_N_outputs", 20, rng.randrange(1000)]])
         steps += [["input", rng.choice([[1, 0, 0], [1, 1, 0], [0, 1, 1]])], ["circuit", a], ["read"], ["circuit", b], obs]
         ctx.count("directed:same_U_full_different_heralds")
+    elif rng.random() < 0.35:
+        # directed: same unitary, same mode count and herald count, herald on another mode, with SAMPLING
+        # before and after (tables derived from the heralds must be rebuilt, not only the distribution)
+        a, b = rng.choice(MOVED_HERALD)
+        sd = rng.randrange(1000)
+        first = rng.choice([["sample_N_outputs", 20, sd], ["sample_N_inputs", 20, sd], ["read"]])
+        second = rng.choice([["sample_N_outputs", 20, sd + 1], ["sample_N_inputs", 20, sd + 1], ["read"], ["sample", sd]])
+        if kind != "sampler":
+            first = ["sample_N_outputs", 20, sd] if first[0] == "sample_N_inputs" else first
+            second = ["sample_N_outputs", 20, sd + 1] if second[0] == "sample_N_inputs" else second
+        steps += [["input", rng.choice([[1, 0, 0], [1, 1, 0], [0, 1, 1]])], ["circuit", a], first, ["circuit", b], second]
+        ctx.count("directed:herald_moved_between_sampling_calls")
     for _ in range(rng.randint(4, ctx.n(10, 14))):
         r = rng.random()
         if r < 0.22:
@@ -238,6 +262,70 @@ def analyzer_probe(ctx: Ctx, rng) -> None:
                           sig={"kind": "analyzer-stale-error-rate"})
 
 
+def analyzer_histories(ctx: Ctx, rng) -> None:
+    """a long-lived Analyzer under circuit / post-selection reassignment vs a fresh Analyzer per call"""
+    names = ["idleherald0", "idleherald1", "plain", "lossy", "heralded_sub", "herald_out0", "herald_out2", "herald_in0"]
+    rulesets = [None, [[0], [0, 1]], [[1], [1]], [[0, 1], [1, 2]]]
+    for _ in range(ctx.n(25, 400)):
+        fam, p = circuits(None)
+        an = None
+        cur = {"circuit": rng.choice(names), "ps": None}
+        hist = []
+        psobjs = {}
+
+        def ps_for(r):
+            key = json.dumps(r)
+            if key not in psobjs:
+                psobjs[key] = mk_ps(r)
+            return psobjs[key]
+
+        an = emulator.Analyzer(fam[cur["circuit"]])
+        bad = None
+        for k in range(rng.randint(2, 6)):
+            r = rng.random()
+            if r < 0.45:
+                cur["circuit"] = rng.choice(names)
+                an.circuit = fam[cur["circuit"]]
+                hist.append(["circuit", cur["circuit"]])
+            elif r < 0.6:
+                cur["ps"] = rng.choice(rulesets)
+                an.post_selection = ps_for(cur["ps"])
+                hist.append(["post_selection", cur["ps"]])
+            elif r < 0.68:
+                p.set(rng.choice([0.1, 0.5, 0.9]))
+                hist.append(["param"])
+            ins = rng.choice([[[1, 0, 0]], [[1, 1, 0]], [[0, 1, 1], [1, 0, 1]], [[1, 0, 0], [0, 0, 1]]])
+            withexp = rng.random() < 0.4
+            hist.append(["analyze", ins, withexp])
+
+            def do(a):
+                states = [lw.State(s) for s in ins]
+                exp = {st: st for st in states} if withexp else None
+                res = a.analyze(states, exp)
+                out = {"outputs": [o.s for o in res.outputs], "array": np.round(np.array(res.array, dtype=float), 10).tolist(),
+                       "performance": round(float(res.performance), 10), "has_error_rate": hasattr(res, "error_rate")}
+                if withexp:
+                    er = float(res.error_rate)
+                    out["error_rate"] = None if np.isnan(er) else round(er, 9)
+                return out
+
+            fresh = emulator.Analyzer(fam[cur["circuit"]])
+            if cur["ps"] is not None:
+                fresh.post_selection = ps_for(cur["ps"])
+            a, b = observe(lambda: do(an)), observe(lambda: do(fresh))
+            if a != b and not (a[0] == "ok" and b[0] == "ok" and a[1] == b[1]):
+                bad = (k, a, b)
+                break
+        ctx.case(("analyzer", json.dumps(hist)), len([h for h in hist if h[0] == "analyze"]) >= 2)
+        ctx.count("analyzer_histories")
+        if bad is not None:
+            k, a, b = bad
+            ctx.violation(f"oracle: long-lived Analyzer, call #{k}: {str(a)[:150]} but a fresh Analyzer with the same circuit and "
+                          f"post-selection gives {str(b)[:150]}", {"object": "analyzer", "history": hist},
+                          sig={"kind": "analyzer-history"})
+            return
+
+
 def run(ctx: Ctx) -> None:
     ctx.rule = ("random histories (4-14 steps) of circuit reassignment (incl. circuits with equal U_full but different "
                 "herald photons / mode split), in-place circuit edits, Parameter updates, input/source/backend/"
@@ -266,6 +354,7 @@ def run(ctx: Ctx) -> None:
             ctx.violation(sprobs[0], {"object": kind, "history": small, "problems": sprobs},
                           sig={"kind": kindsig, "object": kind})
     analyzer_probe(ctx, rng)
+    analyzer_histories(ctx, rng)
 
 
 def replay(ctx: Ctx, path: str) -> None:
